@@ -292,9 +292,12 @@ type Cfg struct {
 	// (block service, bitswap) work on the wrapped store (fault injection), while Node.Store stays
 	// the raw store for the monitors' own observations.
 	Wrap func(corekv.TxnStore) corekv.TxnStore
+	// ACP: the node runs with a local (in-memory) document ACP; database and peer share it.  The
+	// ACP state does not survive NodeDown (use peer outages only).
+	ACP bool
 }
 
-// BusEv is one recorded bus event (update / merge / merge-complete).
+// BusEv is one recorded bus event (update / merge / merge-complete / replicator-completed).
 type BusEv struct {
 	Name  string
 	DocID string
@@ -311,6 +314,7 @@ type Node struct {
 	Peer    *dnet.Peer
 	Journal *Journal
 	ID      libpeer.ID
+	ACP     immutable.Option[dac.DocumentACP]
 	key     []byte
 
 	mu     sync.Mutex
@@ -357,7 +361,16 @@ func (n *Node) OpenDB(ctx context.Context) error {
 	if n.Cfg.Wrap != nil {
 		dbStore = n.Cfg.Wrap(rs)
 	}
-	d, err := db.NewDB(ctx, dbStore, db.NACInfo{}, immutable.None[dac.DocumentACP](), lens, db.WithEnabledSigning(false))
+	n.ACP = immutable.None[dac.DocumentACP]()
+	if n.Cfg.ACP {
+		a, err := dac.NewLocalDocumentACP("")
+		if err != nil {
+			_ = rs.Close()
+			return err
+		}
+		n.ACP = immutable.Some[dac.DocumentACP](a)
+	}
+	d, err := db.NewDB(ctx, dbStore, db.NACInfo{}, n.ACP, lens, db.WithEnabledSigning(false))
 	if err != nil {
 		_ = rs.Close()
 		return err
@@ -365,7 +378,7 @@ func (n *Node) OpenDB(ctx context.Context) error {
 	n.Store, n.DB = rs, d
 	n.NodeStarts++
 	n.bus = d.Events()
-	sub, err := n.bus.Subscribe(event.UpdateName, event.MergeName, event.MergeCompleteName)
+	sub, err := n.bus.Subscribe(event.UpdateName, event.MergeName, event.MergeCompleteName, event.ReplicatorCompletedName)
 	if err != nil {
 		return err
 	}
@@ -377,6 +390,14 @@ func (n *Node) OpenDB(ctx context.Context) error {
 func (n *Node) drain(sub event.Subscription) {
 	for m := range sub.Message() {
 		var e BusEv
+		if m.Name == event.ReplicatorCompletedName {
+			// SetReplicator's asynchronous part (routing table updated, heads of the existing documents
+			// pushed) has finished
+			n.mu.Lock()
+			n.events = append(n.events, BusEv{Name: "replicator-completed"})
+			n.mu.Unlock()
+			continue
+		}
 		switch d := m.Data.(type) {
 		case event.Update:
 			e = BusEv{Name: "update", DocID: d.DocID, Cid: d.Cid.String(), Col: d.CollectionID, Retry: d.IsRetry}
@@ -424,7 +445,7 @@ func (n *Node) PeerUp(ctx context.Context) error {
 	// the port was released a moment ago by the previous incarnation; retry a few times if the
 	// kernel has not let go of it yet (waiting, not judging)
 	for i := 0; i < 20; i++ {
-		p, err = dnet.NewPeer(ctx, n.DB.Events(), immutable.None[dac.DocumentACP](), n.DB, opts...)
+		p, err = dnet.NewPeer(ctx, n.DB.Events(), n.ACP, n.DB, opts...)
 		if err == nil {
 			break
 		}
@@ -498,6 +519,8 @@ type ReplState struct {
 	RetryRecord   bool
 	RetryDocs     []string
 	Keys          []string
+	// CollectionMarker: one of the retry-doc markers carries no document id
+	CollectionMarker bool
 	// decoded retry record (valid when RetryRecord)
 	NumRetries int
 	Retrying   bool
@@ -523,7 +546,14 @@ func (n *Node) ReplicatorState(ctx context.Context, target libpeer.ID) ReplState
 		st.Keys = append(st.Keys, k)
 		switch {
 		case strings.Contains(k, "/rep/retry/doc/"):
-			st.RetryDocs = append(st.RetryDocs, k[strings.LastIndex(k, "/")+1:])
+			d := k[strings.LastIndex(k, "/")+1:]
+			if d == t {
+				// `/rep/retry/doc/<peer>` without a document id: the failed push of a collection-level
+				// commit (update event with an empty DocID)
+				st.CollectionMarker = true
+				d = "(collection-level)"
+			}
+			st.RetryDocs = append(st.RetryDocs, d)
 		case strings.Contains(k, "/rep/retry/id/"):
 			st.RetryRecord = true
 			var ri struct {
